@@ -53,11 +53,18 @@ FIXED = [
     [("derive", 0, ("slice", 1, 4, None)), ("derive", 1, ("slice", None, None, 2)), ("derive", 2, ("child", "i")), ("read", 3),
      ("derive", 0, ("cols", ["t", "i"])), ("derive", 4, ("filt", "i", "<", 5)), ("read", 5), ("read", 1)],
     [("fn",), ("array", (0,)), ("grid", (Ellipsis, slice(0, 2))), ("dap4", (0,)), ("derive", 0, ("int", 2)), ("read", 1)],
+    # C14_derived_reads_reference's whole alphabet in one chain: a condition, a column list, a condition on the
+    # column-restricted proxy, a second column list (its order counts), a strided slice, a slice of it, the child,
+    # a condition on the single column
+    [("derive", 0, ("filt", "i", ">", 1)), ("derive", 1, ("cols", ["f", "i"])), ("derive", 2, ("filt", "f", "<", 4)),
+     ("derive", 3, ("cols", ["i", "f"])), ("derive", 4, ("slice", 0, 6, 2)), ("derive", 5, ("slice", 1, 3, None)),
+     ("derive", 6, ("child", "f")), ("derive", 7, ("colfilt", "i", "<=", 5)), ("read", 8)],
 ]
 
 
 def explore(ctx, tier, search=False):
     cases = []
+    dcases = []
     n = 60 if (tier == "quick" and not search) else 1500
     todo = [("fixed/%d" % i, ops) for i, ops in enumerate(FIXED)] + [("h/%d" % i, None) for i in range(n)]
     # slices of slices: a strided first range (ragged or not), then ranges of it that stop before, at and beyond its
@@ -81,6 +88,7 @@ def explore(ctx, tier, search=False):
         rng = ctx.rng(label + "/len")
         sim, hr, case = one_history(ctx, label, rng.randint(1, 8), ops=ops)
         cases.append((sim.model_line(), sim.impl_output(), case))
+        dcases.extend(hr.derive_cases)
     # traced grid histories: the opened grid with output_grid on (the DAPHandler default: array *and* maps are
     # requested) and off, its maps read on their own, grids returned by earlier reads indexed again, mixed with
     # sequence derivations; every BaseType / GridType / proxy object is snapshotted after every event
@@ -103,6 +111,18 @@ def explore(ctx, tier, search=False):
         sim, hr, case = one_history(ctx, label, 0, ops=ops, output_grid=(i % 3 != 2), fresh=False)
         cases.append((sim.model_line(), sim.impl_output(), case))
     ctx.correspond("proxy heap: observables of all live objects after every event + GET log", cases)
+    # C14_derived_reads_reference: for every derived live object, the request text the model's derived proxy writes,
+    # the by-name reference refSelection and the server model's answer to that text vs the real proxy's url, the
+    # harness's ref_selection and the rows really read (distinct chains only)
+    seen, uniq = set(), []
+    for c in dcases:
+        if c[0] not in seen:
+            seen.add(c[0])
+            uniq.append(c)
+    for c in uniq:
+        ctx.tags["derived-chain:len=%d" % min(len(c[2]["derived"]), 6)] += 1
+    ctx.correspond("derived object: request text, by-name reference refSelection, rows served (client model ∘ server model of C04)",
+                   uniq)
 
 
 # ------------------------------------------------------------------------------------------------
